@@ -253,3 +253,81 @@ Proof.
     + specialize (Hall _ Hin). discriminate.
   - destruct trust; reflexivity.
 Qed.
+
+(* ---- statements that hold for both variants of the decision ---- *)
+Lemma resolve_gen_untrusted (pip : bytes -> option N) (fixed trust : bool) (cfg : list (option cidr)) (q : request) :
+  trust = false \/
+  is_trusted_proxy_gen pip (if fixed then is_nil cfg else is_nil (parse_cidrs cfg)) (q_remote q) (parse_cidrs cfg) = false ->
+  resolve_gen pip fixed trust cfg q = (Peer, default_scheme q).
+Proof.
+  intros H. unfold resolve_gen.
+  destruct trust; cbn [negb orb]; [|reflexivity].
+  destruct H as [H|H]; [discriminate|]. rewrite H. reflexivity.
+Qed.
+
+Lemma untrusted_unchanged_gen_stmt : forall (pip : bytes -> option N) fixed trust cfg q,
+  trust = false \/ q_remote q = None \/ (exists t, q_remote q = Some t /\ pip t = None) ->
+  resolve_gen pip fixed trust cfg q = (Peer, default_scheme q).
+Proof.
+  intros pip fixed trust cfg q [H|[H|(t & Ht & Hp)]]; apply resolve_gen_untrusted.
+  - left; exact H.
+  - right. unfold is_trusted_proxy_gen. rewrite H. reflexivity.
+  - right. unfold is_trusted_proxy_gen. rewrite Ht, Hp. reflexivity.
+Qed.
+
+Lemma forwarded_value_origin_gen_stmt : forall (pip : bytes -> option N) fixed trust cfg q p s,
+  resolve_gen pip fixed trust cfg q = (Fwd p, s) ->
+  (exists v, header_value (q_cf q) = Some v /\ pip (trim_space v) = Some p) \/
+  (header_value (q_cf q) = None /\
+   exists v, header_value (q_xff q) = Some v /\ pip (trim_space (first_part v)) = Some p).
+Proof.
+  intros pip fixed trust cfg q p s. unfold resolve_gen.
+  destruct (negb trust || negb (is_trusted_proxy_gen pip (if fixed then is_nil cfg else is_nil (parse_cidrs cfg))
+                                  (q_remote q) (parse_cidrs cfg))); [discriminate|].
+  destruct (header_value (q_cf q)) as [v|].
+  - destruct (pip (trim_space v)) as [p'|] eqn:E; intros H; inversion H; subst. left. exists v. auto.
+  - destruct (header_value (q_xff q)) as [v|]; [|discriminate].
+    unfold parse_forwarded_client_ip. destruct (pip (trim_space (first_part v))) as [p'|] eqn:E;
+      intros H; inversion H; subst. right. split; [reflexivity|]. exists v. auto.
+Qed.
+
+Lemma scheme_values_gen_stmt : forall (pip : bytes -> option N) fixed trust cfg q,
+  snd (resolve_gen pip fixed trust cfg q) = default_scheme q \/
+  (trust = true /\ exists v, header_value (q_proto q) = Some v /\
+     snd (resolve_gen pip fixed trust cfg q) = to_lower (trim_space (first_part v)) /\
+     (snd (resolve_gen pip fixed trust cfg q) = B"http" \/ snd (resolve_gen pip fixed trust cfg q) = B"https")).
+Proof.
+  intros pip fixed trust cfg q. unfold resolve_gen.
+  destruct trust; cbn [negb orb]; [|left; reflexivity].
+  destruct (negb (is_trusted_proxy_gen pip (if fixed then is_nil cfg else is_nil (parse_cidrs cfg))
+                    (q_remote q) (parse_cidrs cfg))); [left; reflexivity|].
+  cbn [snd]. destruct (header_value (q_proto q)) as [v|]; [|left; reflexivity].
+  unfold parse_forwarded_scheme.
+  destruct (bytes_eqb (to_lower (trim_space (first_part v))) B"http") eqn:E1.
+  - right. split; [reflexivity|]. exists v. cbn [orb]. apply bytes_eqb_eq in E1. auto.
+  - destruct (bytes_eqb (to_lower (trim_space (first_part v))) B"https") eqn:E2; cbn [orb]; [|left; reflexivity].
+    right. split; [reflexivity|]. exists v. apply bytes_eqb_eq in E2. auto.
+Qed.
+
+(* the current code honours forwarded headers exactly from trusted peers: completeness direction *)
+Lemma trusted_proxy_honoured_stmt : forall (pip : bytes -> option N) cfg q t p,
+  q_remote q = Some t -> pip t = Some p ->
+  (cfg = [] \/ exists c, In (Some c) cfg /\ contains c p = true) ->
+  resolve_gen pip true true cfg q =
+   (match header_value (q_cf q) with
+    | Some v => match pip (trim_space v) with Some a => Fwd a | None => Peer end
+    | None => match header_value (q_xff q) with
+              | Some v => match pip (trim_space (first_part v)) with Some a => Fwd a | None => Peer end
+              | None => Peer
+              end
+    end,
+    match header_value (q_proto q) with
+    | Some v => match parse_forwarded_scheme v with Some s => s | None => default_scheme q end
+    | None => default_scheme q
+    end).
+Proof.
+  intros pip cfg q t p Hr Hp Hc. unfold resolve_gen. cbn [negb orb].
+  assert (is_trusted_proxy_gen pip (is_nil cfg) (q_remote q) (parse_cidrs cfg) = true) as ->.
+  { apply fixed_trusted_spec. exists t, p. auto. }
+  cbn [negb]. unfold parse_forwarded_client_ip. reflexivity.
+Qed.
